@@ -94,6 +94,14 @@ CLAIMS = {
         "text": "Decides progress and wake-up discipline of the relay receive path: the segment count given to take_segments is proven >= 1, the stored pending item is cleared exactly when empty (or undeliverable), poll_recv_queue serves the stored item first and returns Pending only from the channel, and every way out of the receive loop that can end in Poll::Pending follows the channel's Pending or re-arms the waker. Exactly-once/in-order delivery of bytes is not decided.",
         "technique": "partial-arithmetic rule (zero quotient as progress count), success-edge dominance, loop-exit coverage on the CFG",
     },
+    "C20": {
+        "text": "Symmetry rule on Builder::bind_addr_with_opts: every DuplicateDefaultAddr rejection must be control-dependent on the new bind's opts.is_default_route() as well as on the scan of existing binds; the stored flag is the same predicate; each family scans with its own predicate. Exhaustive enumeration of bind sequences is not performed.",
+        "technique": "control-dependence (success-edge dominance) of error constructor sites on two predicates; copy-chain provenance of the stored flag",
+    },
+    "C25": {
+        "text": "Release-before-signal rule on the task spawned by DirectAddrUpdateState::run: the captured OwnedMutexGuard must be dropped on every path before run_done.send; plus want_update writers and the try_lock_owned gating of run/try_run. Channel liveness is not decided.",
+        "technique": "must-precede (dominance) of a guard release over a channel send in coroutine MIR, who-writes, success-edge dominance",
+    },
 }
 
 _PENDING = "rules for this property are not implemented yet in this revision (see DESIGN.md §4 for the planned structural clauses)"
